@@ -15,6 +15,7 @@ def WF(c, skip=()):
         "rel_symbol": forest.rel_symbol(c),
         "rel_proxy": forest.rel_proxy(c),
         "rel_module": forest.rel_module(c),
+        "wrappers_owned": forest.wrappers_owned(c),
         "lit_wiring": z3.And(forest.wf_wiring(c), forest.wf_lit_owner(c)),
         "typed": forest.wf_typed(c),
         "inv_region": forest.inv_region(c),
@@ -46,7 +47,8 @@ def attach_ok(c, ir_val, v, cls):
 # --- assumption slicing for the conjuncts of WF (which facts the proof of each conjunct may use) -------------
 _EFFECT = ["view", "parent", "other_collections", "other_parents", "is_wrapper", "is_child", "parent_kinds",
            "subtree_shape_unchanged", "ir_of_unchanged_outside", "ir_of_subtree", "is_node", "stored",
-           "subtree_same_ir", "root_ir"]
+           "subtree_same_ir", "root_ir", "parents", "target_ir_fixed", "elements_are_blocks", "not_pending",
+           "events_add_all"]
 _CACHE = ["wf_cache_I1", "wf_cache_I2", "uuids_typed", "uuids_distinct_where_attached", "subtree_registered",
           "old_entries_kept_or_overwritten_by_subtree", "new_entries_are_subtree", "exactly_subtree_removed",
           "other_entries_unchanged", "rel_module", "rel_interval", "rel_block", "rel_section", "rel_symbol",
@@ -61,6 +63,7 @@ FOCUS = {
     "rel_symbol": _EFFECT + ["rel_symbol"],
     "rel_proxy": _EFFECT + ["rel_proxy"],
     "rel_module": _EFFECT + ["rel_module"],
+    "wrappers_owned": _EFFECT + ["wrappers_owned"],
     "lit_wiring": _EFFECT + ["lit_wiring"],
     "typed": _EFFECT + ["typed"],
     "inv_region": _EFFECT + _REGION,
@@ -72,6 +75,10 @@ FOCUS = {
 def focus(clause):
     if clause in FOCUS:
         return FOCUS[clause]
+    if clause in ("view", "parents", "parent", "other_collections", "other_parents", "target_ir_fixed"):
+        return _EFFECT + ["rel_block", "rel_interval", "rel_section", "rel_symbol", "rel_proxy", "rel_module",
+                          "wrappers_owned"]
     if clause.startswith("lemma."):
-        return _EFFECT + ["rel_block", "rel_interval", "rel_section", "rel_symbol", "rel_proxy", "rel_module"]
+        return _EFFECT + ["rel_block", "rel_interval", "rel_section", "rel_symbol", "rel_proxy", "rel_module",
+                          "wrappers_owned"]
     return None
